@@ -16,8 +16,15 @@ def int_to_bits(r, n):
     return out
 
 def mk(bits):
+    """operand with the given bits; built from the bit list, and if that constructor itself is broken, from (value, size) -
+    the constructor's own behaviour is judged by the from_list events, it must not take the whole run down"""
     from crysp.bits import Bits
-    return Bits(list(bits))
+    try:
+        b = Bits(list(bits))
+        if b.size == len(bits): return b
+    except Exception:
+        pass
+    return Bits(sum(v << j for j, v in enumerate(bits)), len(bits))
 
 def snap(o):
     from crysp.bits import Bits
